@@ -529,3 +529,4 @@ MANIFEST["text"] += ' The polar-decomposition helper is decided algebraically wi
 MANIFEST["text"] += ' Guard rule: only a missing *magnitude* drops a term (an angle alone multiplies a zero magnitude), so guards may omit angles; a missing magnitude is a definite verdict of the series interpreter.'
 MANIFEST["text"] += " R5 also: the 'not given' arm of each alias loop tests `is None` (a coefficient of exactly 0 is a value)."
 MANIFEST["text"] += ' R3 merge rule is coupled: a merge that visits only the keys of the converted initial guess is a violation only when the polar→Cartesian conversion is sparse (each alone holds).'
+MANIFEST["text"] += ' R5 is coupled with HyperparameterState.current_aberrations (validator first-wins ∧ merged-then-validated override).'
